@@ -20,7 +20,8 @@ fn main() {
         OpenOptions::new().create(true).append(true).open(&args[2]).expect("events file"),
     );
     let progress_path = format!("{}.progress", &args[2]);
-    let mut runner = Runner::new();
+    // PV_UNGUARDED: run without the C01 resource envelope (used by the C15 check under supervision)
+    let mut runner = Runner::new_with(std::env::var("PV_UNGUARDED").is_err());
     for (n, line) in inp.lines().enumerate() {
         if n < start {
             continue;
